@@ -24,7 +24,9 @@ def bounds(tier):
         return {"dense": "values 0..5, 1..6 items, 1..7 bins", "ilp": "values 0..4, 1..5 items, 1..4 bins",
                 "named formats": "dict(str names), dict(int names), names+valueof (unique names; one name per distinct value, repeated; numpy array of ids) on 1..4 items",
                 "big": "values {0, 1, 2**24+1, 2**31+1, 2**32+3, 2**40+5}, 1..4 items, 1..4 bins, all partitioners and all cg configurations",
-                "wide-search": "snp/rnp/ckk/cg on all multisets of 7 items over 1..6 (k=3..5), every 6th chunk of the 8-item multisets over 0..10 (k=4), and 9..10 items over 1..3 given as a dict (k=4..5)",
+                "spread-heur": "greedy/roundrobin/multifit/kk on all multisets of 7 items over (1,2,3,4,6,9,11,16,20,25), k=2..4, non-sorted presentation",
+                "spread-heur": "greedy/roundrobin/multifit/kk on all multisets of 7 items over 1..25, k=2..4, non-sorted presentation",
+            "wide-search": "snp/rnp/ckk/cg on all multisets of 7 items over 1..6 (k=3..5), every 6th chunk of the 8-item multisets over 0..10 (k=4), and 9..10 items over 1..3 given as a dict (k=4..5)",
                 "count-sweep": "every numbins k in 1..24 with k-1, k, k+1, 2k+1 items over {1,2,3}: greedy/roundrobin/multifit/kk/cg x 3 objectives (+cbldm k=2, snp where items <= k+1 and k <= 6)",
                 "long-thin": "9..15 items over {1,2}, 9..12 over {1,2,3}, 9..11 over {0,1,5} and {2,3,7}, bins {2,3,4,5,7,n,n+1}, non-sorted presentation: greedy/roundrobin/multifit/kk/cg(default switches, 3 objectives)/cbldm"}
     return {"dense": "values 0..7, 1..7 items, 1..8 bins", "ilp": "values 0..5, 1..6 items, 1..4 bins",
@@ -43,7 +45,7 @@ def tasks(tier):
         ts.append(("dense-simple", ch, K, "list"))
         ts.append(("dense-cg", ch, K, "list"))
     Nn = 4 if q else 5
-    for fmt in ("dict_str", "dict_int", "names", "names_rep", "array_names"):
+    for fmt in ("dict_str", "dict_int", "dict_idx", "names", "names_rep", "array_names"):
         for ch in scopes.chunk_multisets(range(0, V + 1), 1, Nn, 60):
             ts.append(("named-simple", ch, K, fmt))
             ts.append(("named-cg", ch, K, fmt))
@@ -65,6 +67,11 @@ def tasks(tier):
         ts.append(("wide-search", ch, (3, 4, 5), "list"))
     for ch in scopes.chunk_multisets(range(0, 11), 8, 8, 40)[:: (6 if q else 1)]:
         ts.append(("wide-search", ch, (4,), "list"))
+    # the cheap heuristics on seven and eight items with values spread over a 1:25 range (multifit's bin count depends on
+    # first-fit succeeding at the capacity its search ends with)
+    SPREAD = (1, 2, 3, 4, 6, 9, 11, 16, 20, 25)
+    for ch in scopes.chunk_multisets(SPREAD if q else range(1, 26), 7, 7, 300):
+        ts.append(("spread-heur", ch, (2, 3, 4), "list"))
     # nine and ten items with many repeated values, presented by name (two name-sets with equal values must stay distinct)
     for n in (9, 10):
         for ch in scopes.chunk_multisets(range(1, 4 if q else 5), n, n, 12):
@@ -90,6 +97,14 @@ def _one(acc, case):
 def run_task(task):
     scope, chunk, K, fmt = task
     acc = Acc(ID, scope)
+    if scope == "spread-heur":
+        for ms in chunk:
+            for k in K:
+                acc.point(nontrivial=True)
+                for algo in scopes.SIMPLE_PARTITIONERS:
+                    _one(acc, {"algo": algo, "items": list(scopes.scramble(ms)), "k": k, "fmt": fmt, "out": "PartitionAndSumsTuple", "kw": {}})
+        acc.sample({"scope": scope, "items": list(chunk[0]), "numbins": list(K)})
+        return acc
     if scope == "wide-search":
         for ms in chunk:
             for k in K:
